@@ -314,6 +314,14 @@ def worker(job):
     import compat
     compat.install()
     part = common.Part()
+    if 'replay' in job and 'ops' in job['replay']:
+        import logging
+        import warnings
+        logging.disable(logging.CRITICAL)
+        warnings.simplefilter('ignore')
+        from checks import c12b_clients
+        c12b_clients.run_case(job['replay'], part)
+        return part.dump()
     if 'replay' in job:
         rp = job['replay']
         obs = run_one(rp['cfg'], sched.ReplayChooser(rp['vector']))
@@ -364,6 +372,16 @@ def worker(job):
         if n % 97 == 0:
             part.sample({'cfg': cfg, 'trace': obs.get('trace', [])[:30], 'outcome': obs.get('outcome')})
     part.count('distinct_schedules', len(schedules))
+    # monitor B: wpull's own clients (HTTP / web sessions, robots.txt checker; direct, relaying and tunnelling proxy pools)
+    # against hostile peers; the pool must be quiescent when they have finished
+    if job.get('n_clients'):
+        import logging
+        import warnings
+        logging.disable(logging.CRITICAL)
+        warnings.simplefilter('ignore')
+        from checks import c12b_clients
+        for n in range(job['n_clients']):
+            c12b_clients.run_case(c12b_clients.gen_case(rng), part)
     return part.dump()
 
 
@@ -373,7 +391,11 @@ def main():
                   'close-before-release, session() context manager, BaseSession) x H host keys (1-3) x per-host limit M (1-4); '
                   'fault branches: cancel a client at any step, next connect fails, peer closes a connection; DFS over all '
                   'choice vectors for directed small configurations and random schedules for generated ones. '
-                  'distinct_nontrivial = distinct (config, choice vector) in which >= 2 clients contended for one host key')
+                  'distinct_nontrivial = distinct (config, choice vector) in which >= 2 clients contended for one host key. '
+                  'Monitor B: sequences of 1-8 fetches by wpull\'s own clients (HTTP session, web session with redirects and '
+                  'login, robots.txt checker) sharing a direct / relaying-proxy / tunnelling-proxy pool with per-host limit '
+                  '1-6, against peers that answer, send garbage, reset, close early, refuse or time out the connect, hang '
+                  'until cancelled; quiescence + probe fetch afterwards')
     check.assumptions = ['ready callbacks run FIFO as asyncio documents; client progress, connect completion and faults are '
                          'external events ordered by the scheduler',
                          'a client that is cancelled or fails while holding a connection closes it and hands it back '
@@ -389,7 +411,8 @@ def main():
         dfs_runs = 100000 if check.thorough else 6000
         n_random = int((2000000 if check.thorough else 64000) * check.scale)
         jobs = [{'seed': check.seed * 1000003 + i, 'dfs_cfgs': cfgs[i::nj], 'dfs_runs': dfs_runs,
-                 'dfs_depth': 60 if check.thorough else 30, 'n_random': n_random // nj} for i in range(nj)]
+                 'dfs_depth': 60 if check.thorough else 30, 'n_random': n_random // nj,
+                 'n_clients': int((40000 if check.thorough else 1600) * check.scale) // nj} for i in range(nj)]
         res = par.run_jobs(target, jobs, check.jobs, timeout=7200 if check.thorough else 900)
     for r in res:
         if '_error' in r:
@@ -397,7 +420,9 @@ def main():
         else:
             check.merge(r)
     check.finish(required_counters=() if check.args.replay else ('schedules_clean', 'dfs_runs', 'random_runs',
-                                                                 'acquisitions_observed'))
+                                                                 'acquisitions_observed', 'real_client_operations',
+                                                                 'real_client_sequences_left_pool_quiescent',
+                                                                 'probe_fetches_served'))
 
 
 if __name__ == '__main__':
